@@ -1,6 +1,6 @@
+import Ntrip.Proofs.Translated
 import Ntrip.Proofs.Range
 import Ntrip.Generated.Tables
-import Ntrip.Guards.Range
 import Ntrip.Proofs.F64
 /-!
 # C08 — ranges, phase ranges and range rates equal the standard's formulas
@@ -212,21 +212,21 @@ theorem rate_accurate (scaled : Int) (h : scaled.natAbs < 2 ^ 53) :
 
 example : F64.ieee (rangeMetres (81 * 2 ^ 29 + 435 * 2 ^ 19 - 26835)) = (false, 1047, 6552651041628382) := by decide +kernel
 
-/-- Tie T1: markers and scale constants. -/
-theorem tie_constants :
-    Gen.utils_InvalidRange = 255 ∧ Gen.utils_InvalidRangeDelta = -16384 ∧ Gen.utils_InvalidPhaseRangeDelta = -2097152 ∧
-    Gen.sig7_InvalidRangeDelta = -524288 ∧ Gen.sig7_InvalidPhaseRangeDelta = -8388608 ∧
-    Gen.sig7_InvalidPhaseRangeRate = -8192 ∧ Gen.sig7_InvalidPhaseRangeRateDelta = -16384 ∧
-    Gen.sat7_InvalidPhaseRangeRate = -8192 ∧
-    Gen.utils_TwoToThePower29 = 2^29 ∧ Gen.utils_TwoToThePower31 = 2^31 ∧ Gen.utils_TwoToThePower24 = 2^24 ∧
-    Gen.utils_TwoToThePower10 = 2^10 ∧ Gen.utils_GetPhaseRangeMilliseconds_scaleFactor = 2^31 ∧
-    Gen.sig4_Cell_RangeInMillis_scaleFactor = 2^29 := by decide
+/-- **Translator tie**: the Lean functions that `extract/translate.go` regenerates from the Go
+    source of `getScaledValue`, `GetScaledRange`, `GetScaledPhaseRange` and
+    `GetScaledPhaseRangeRate` on every run (wrapping 64-bit arithmetic, conversions and all) are
+    the model's functions — for every argument.  For this arithmetic the theorems above are
+    therefore about what the code says now, not about a hand-written copy. -/
+theorem translated_is_model :
+    (∀ v1 s1 v2 s2 delta, Gen.fn_utils_getScaledValue v1 s1 v2 s2 delta = scaledValue v1 s1 v2 s2 delta) ∧
+    (∀ w f d, Gen.fn_utils_GetScaledRange w f d = scaledValue w 29 f 19 d) ∧
+    (∀ w f d, Gen.fn_utils_GetScaledPhaseRange w f d = scaledValue w 31 f 21 d) ∧
+    (∀ rate delta, -(2 ^ 13 : Int) ≤ rate ∧ rate < 2 ^ 13 → -(2 ^ 14 : Int) ≤ delta ∧ delta < 2 ^ 14 →
+      Gen.fn_utils_GetScaledPhaseRangeRate rate delta = rate * 10000 + delta) :=
+  ⟨translated_getScaledValue, translated_GetScaledRange, translated_GetScaledPhaseRange, translated_GetScaledPhaseRangeRate⟩
 
 /-! Non-vacuity (tests). -/
 example : aggregateRange7 81 435 (-26835) = 81 * 2^29 + 435 * 2^19 - 26835 := by decide
 example : aggregateRange4 81 435 (-839) = aggregateRange7 81 435 (-26848) := by decide
-
-/-- Tie T1: guards and loop headers of the modelled code, regenerated from the source. -/
-theorem tie_guards_range : type_of% Ntrip.Guards.range := Ntrip.Guards.range
 
 end Ntrip.C08
